@@ -62,7 +62,7 @@ func ZZ_C05_reduceModOrder_bytes() {
 
 // S < L check of verification equals integer comparison, for every 32-byte string
 //
-//zz: prop=C05 tier=quick backend=lia timeout=120
+//zz: prop=C05 also=C02 tier=quick backend=lia timeout=120
 func ZZ_C05_isLessThanOrder() {
 	x := make([]byte, 32)
 	zzFill("x", x)
